@@ -40,7 +40,8 @@ def lean_num(value):
     """An exact Lean `XR.fin` literal for a Python int/float constant."""
     if isinstance(value, bool):
         raise Untranslatable("bool used as number")
-    fr = Fraction(str(value)) if isinstance(value, float) else Fraction(value)
+    # a float literal denotes a double: use its exact binary value (1e30 is 1000000000000000019884624838656)
+    fr = Fraction(value)
     if fr.denominator == 1:
         if fr.numerator < 0:
             return "(XR.fin (%d : Rat))" % fr.numerator
